@@ -144,6 +144,13 @@ func (tc *typechecker) checkIdentifier(ident *ast.Identifier, used bool) *typeIn
 		tc.compilation.iteaToUsingCheck[ident.Name] = uc
 	}
 
+	// Each use of a constant has its own type info because its value depends
+	// on the context in which the constant is used.
+	if ti.IsConstant() {
+		c := *ti
+		ti = &c
+	}
+
 	tc.compilation.typeInfos[ident] = ti
 	return ti
 }
